@@ -17,6 +17,9 @@ fn hist_scenarios(id: &str, tier: &str) -> Option<(Vec<Scenario>, Option<hist::O
         "C02" => Some((props::c02::scenarios(tier), None)),
         "C03" => Some((props::c03::scenarios(tier), None)),
         "C05" => Some((props::c05::scenarios(tier), None)),
+        "C06" => Some((props::c06::scenarios(tier), Some(props::c06::oracle_factory()))),
+        "C07" => Some((props::c07::scenarios(tier), Some(props::c07::oracle_factory()))),
+        "C08" => Some((props::c08::scenarios(tier), Some(props::c08::oracle_factory()))),
         "C10" => Some((props::c10::scenarios(tier), None)),
         _ => None,
     }
@@ -109,6 +112,18 @@ fn main() {
             let t = util::now();
             for _ in 0..n { let _ = r.check_path(&path, true); }
             println!("check_path: {:.3} ms", t.elapsed().as_secs_f64() * 1e3 / n as f64);
+            let t = util::now();
+            for _ in 0..20 { r.subject.reopen(); }
+            println!("reopen: {:.3} ms", t.elapsed().as_secs_f64() * 1e3 / 20.0);
+            let t = util::now();
+            for _ in 0..20 { r.subject.call("brc20_mine", serde_json::json!([1, 5])); r.subject.call("brc20_commitToDatabase", serde_json::json!([])); }
+            println!("mine+commit: {:.3} ms", t.elapsed().as_secs_f64() * 1e3 / 20.0);
+            let t = util::now();
+            for _ in 0..20 { r.subject.call("brc20_mine", serde_json::json!([1, 5])); r.subject.call("brc20_commitToDatabase", serde_json::json!([])); r.subject.reopen(); }
+            println!("mine+commit+reopen: {:.3} ms", t.elapsed().as_secs_f64() * 1e3 / 20.0);
+            let t = util::now();
+            for _ in 0..20 { r.subject.wipe(); }
+            println!("wipe after commits: {:.3} ms", t.elapsed().as_secs_f64() * 1e3 / 20.0);
             inst::cleanup_scratch();
         }
         "replay" => {
